@@ -87,13 +87,28 @@ def main():
         print(("REPRODUCED: " if reproduced else "NOT REPRODUCED: ") + detail)
         return 1 if reproduced else 0
     validate(H, 80 if quick else 400)
-    configs = [("T(2,3)", 2, 3)]
-    for name, depth, group in configs:
-        run_step_config(H, name, depth, group)
+    full = [ct for ct in I.ALL_HOLE_FREE + ["Let0"]]
+    groups3 = {1: ["Let1", "Let2", "Let3"], 2: ["Integer", "Variable", "IntegerLiteral", "Lambda", "Type"],
+               3: ["Variable", "IntegerLiteral", "Integer"]}
+    groups4 = {1: ["Let1", "Let2", "Let3"], 2: ["Lambda", "Variable", "IntegerLiteral", "Integer"],
+               3: ["Variable", "Integer", "Sum", "Application", "IntegerLiteral"], 4: ["Variable", "IntegerLiteral"]}
+    redex4 = {1: ["Application", "If", "Sum", "Quotient", "LessThan", "Negation", "EqualTo"],
+              2: ["Lambda", "Application", "If", "Sum", "Variable", "IntegerLiteral", "True", "False"],
+              3: ["Variable", "IntegerLiteral", "True", "Lambda", "Sum"], 4: ["Variable", "IntegerLiteral"]}
+    nested4 = {1: ["Application", "Let1", "Let2"], 2: ["Lambda", "Let1", "Variable", "IntegerLiteral", "Integer"],
+               3: ["Lambda", "Variable", "Integer", "IntegerLiteral", "Difference"], 4: ["Variable", "IntegerLiteral", "Integer"]}
+    configs = [("T(2,3) all constructors", 2, lambda n: full),
+               ("groups G(3): 1-3 definitions, lambda or leaf definitions", 3, lambda n: groups3[n.depth]),
+               ("redexes R(4): operators/calls/conditionals over lambdas and operands", 4, lambda n: redex4[n.depth])]
+    if not quick:
+        configs += [("groups G(4): 1-3 definitions with lambda bodies that compute", 4, lambda n: groups4[n.depth]),
+                    ("nested N(4): groups and calls nested in each other", 4, lambda n: nested4[n.depth])]
+    for name, depth, alpha in configs:
+        run_step_config(H, name, depth, alpha)
     budget = 5 if quick else 6
     run_evaluate(H, budget, fuel=400 if quick else 1500)
     run_skeletons(H, quick)
-    H.bounds.update({"step": "hole-free templates %s, all constructors, operands/indices unbounded" % ", ".join(c[0] for c in configs),
+    H.bounds.update({"step": "hole-free templates, operands/indices unbounded: %s" % "; ".join(c[0] for c in configs),
                      "evaluate": "all closed hole-free terms with at most %d nodes (groups <= 2 definitions); fuel-bounded; plus %d program skeletons with symbolic literals" % (budget, len(SKELETONS)),
                      "outside": "terms with unresolved holes, deeper terms, evaluation beyond the fuel bound, exactness of num-bigint itself"})
     H.assumptions += ["hole-free terms (elaborated, fully solved programs)", "BigInt modelled as mathematical integers"]
@@ -142,10 +157,9 @@ def validate(H, n):
     H.log("encoder validation: %d concrete steps compared with the compiled code, %d disagreements" % (H.validated, bad))
 
 
-def run_step_config(H, name, depth, group):
+def run_step_config(H, name, depth, alpha):
     ex, it = H.engine(solver_timeout_ms=600000)
     it.summarize_fns = {"step", "is_value", "open", "unsigned_shift", "signed_shift"}
-    alpha = [ct for ct in I.ALL_HOLE_FREE + ["Let0"] if not ct.startswith("Let") or I.let_n(ct) <= group]
     sp = I.InputSpace("t", depth, alpha)
     t = sp.root()
     v = {"t": t}
